@@ -119,6 +119,37 @@ def check_tree(ctx):
             ctx.inconclusive.append("shape %d: did not see both a normal and an exceptional ending (%s)" % (sh, sorted(kinds)))
 
 
+def check_wide(ctx):
+    """a callback argument that does not fit the application type: the refusal sits between the callback's 'out' and 'in'"""
+    install_exc(ctx.eng)
+    b0 = ctx.sandbox_base(32, "b0", aligned=False)
+    x = ctx.sym("x", 32)
+    paths = ctx.run("k_wide", [b0, x])
+    seen = set()
+    for q in paths:
+        if q.status != "ret":
+            ctx.fail(q, "the invocation ended %s (%s): a refused callback argument must surface as a catchable exception" % (q.status, q.info))
+            continue
+        lg = q.user.get("log") or []
+        mark = [e for e in lg if e[0] == 24][0]
+        seq = [("in" if e[0] == 50 else "out", conc(e[1]), conc(e[2]), conc(e[3])) for e in lg if e[0] in (50, 51)]
+        ok, why, crossings = well_nested(seq, conc(mark[1]))
+        done = [e for e in lg if e[0] == 60]
+        exceptional = bool(done) and conc(done[0][1]) == 1
+        body = any(e[0] == 20 for e in lg)
+        seen.add((exceptional, body))
+        n = [e for e in lg if e[0] == 61]
+        recs = [(conc(e[1]), conc(e[2])) for e in lg if e[0] == 62]
+        ctx.require(q, z3.BoolVal(ok), "notifications are properly nested (%s): %s" % (why, seq))
+        ctx.require(q, z3.BoolVal(len(crossings) == 2 and crossings[0] == (INVOKE, conc(mark[2]))), "one invocation of g_w and one callback crossing are announced: %s" % (crossings,))
+        ctx.require(q, z3.BoolVal(bool(n) and conc(n[0][1]) == len(crossings) and sorted(recs) == sorted(crossings)),
+                    "exactly one timing record per crossing (%s for %s)" % (recs, crossings))
+    ctx.expect(paths, ret=2)
+    if (True, False) not in seen or (False, True) not in seen:
+        ctx.inconclusive.append("did not see both the refused argument (exception before the callback body) and the normal run: %s" % sorted(seen))
+    ctx.validate_paths(paths, 8)
+
+
 def check_single_hook(ctx, which):
     """only one of the two hooks is defined: every crossing must still produce exactly one notification of that kind"""
     install_exc(ctx.eng)
@@ -262,5 +293,6 @@ def jobs(tier, seed):
                 native=False, max_paths=100000, flags=["-D_GLIBCXX_EXTERN_TEMPLATE=0"]),
             Job("C19_only_in", '#define C19_ONLY_IN\n#include "C19_tree.inc"\n', [dict(name="only the IN hook defined", fn=check_single_hook, kw=dict(which="in"), unwind=400)],
                 native=False, max_paths=100000, flags=["-D_GLIBCXX_EXTERN_TEMPLATE=0"]),
+            Job("C19_wide", '#include "C19_wide.inc"\n', [dict(name="callback argument refused at the crossing", fn=check_wide, unwind=400)]),
             Job("C19_tree", '#include "C19_tree.inc"\n', [dict(name="transition call trees", fn=check_tree, unwind=400)], max_paths=100000,
                 flags=["-D_GLIBCXX_EXTERN_TEMPLATE=0"])]
